@@ -565,11 +565,15 @@ class _History:
             modules = {module.__name__: module for module in main.get_all_modules()}
             for index, (record, stored) in enumerate(zip(results.records, results.results)):
                 # record B: another record of the analysis if there is one, else the same record renamed
-                if len(results.records) > 1:
+                source_id = record.id
+                if len(results.records) > 1 and step.get("salt", 0) % 2:
                     other = results.records[(index + 1) % len(results.records)]
                 else:
+                    # the same record under another id whose original id is the source's id, as pre-processing
+                    # leaves the second of two input records that share an id
                     other = record
-                    other.id = record.id + "_other"
+                    other.id = source_id + "_0"
+                    other.original_id = source_id
                 other.strip_antismash_annotations()
                 for name, module_json in stored.items():
                     module = modules.get(name)
@@ -578,12 +582,12 @@ class _History:
                     try:
                         value = module.regenerate_previous_results(module_json, other, options)
                     except BaseException as err:  # pylint: disable=broad-except
-                        out.append([name, record.id, other.id, f"raised:{type(err).__name__}"])
+                        out.append([name, source_id, other.id, f"raised:{type(err).__name__}"])
                         continue
                     if value is None:
-                        out.append([name, record.id, other.id, "none"])
+                        out.append([name, source_id, other.id, "none"])
                         continue
-                    out.append([name, record.id, other.id, f"results-for:{getattr(value, 'record_id', '?')}"])
+                    out.append([name, source_id, other.id, f"results-for:{getattr(value, 'record_id', '?')}"])
                 break
             return out
         outcome = P.fork_call(body)
@@ -592,10 +596,11 @@ class _History:
             return
         self.trace.append(["foreign", outcome])
         for name, source, other, what in outcome:
-            if what.startswith("results-for:") and what != f"results-for:{other}":
-                # a module may hand back results still labelled with the source record only if the pipeline's next
-                # step (run_on_record) rejects them; TTA does exactly that, so look at what run_on_record would do
-                if name.endswith(".tta"):
+            if what.startswith("results-for:"):
+                # whatever record the regenerated results claim to be for, they were stored for another one.
+                # TTA alone hands them back labelled with the source record and leaves the rejection to its
+                # run_on_record, which compares the ids and recomputes
+                if name.endswith(".tta") and what == f"results-for:{source}":
                     continue
                 res.violate("C11-d", f"{name.rsplit('.', 1)[-1]} results stored for record {source} were regenerated against record "
                             f"{other} ({what})", sig=f"C11-d:foreign-record:{name.rsplit('.', 1)[-1]}")
